@@ -707,5 +707,6 @@ func findIndexEntry(entries []*IndexEntry, offset int64) *IndexEntry {
 			hi = mid - 1
 		}
 	}
-	return entries[0]
+	// lo == hi+1: entries[hi] is the greatest entry below offset.
+	return entries[hi]
 }
